@@ -28,6 +28,18 @@ def universe(tier, seed):
     return progs
 
 
+def shape(rows):
+    """the rows of a unit with statement ids relative to the unit's first row: what must not depend on the other files of the workspace"""
+    if not rows:
+        return []
+    base = rows[0]["id"]
+    idf = ("id", "parent") + G.INT_FIELDS
+    out = []
+    for r in rows:
+        out.append({k: ((x - base if x > 0 else x) if k in idf else x) for k, x in sorted(r.items()) if not k.endswith("_tok") and not k.endswith("_toks")})
+    return out
+
+
 def run(tier, seed):
     t0 = time.time()
     v = C.Verdict(PID)
@@ -54,23 +66,74 @@ def run(tier, seed):
                 names["p%04d" % i] = name
             jobs.append(dict(cmd="lang", lang=r.name, files=files, dir=os.path.join(root, "%s_%05d" % (r.name, k)), export=["gir", "modules"],
                              flags=["--nomock"], timeout=900, _names=names, _r=r, _files=files))
+    # one workspace that holds the renderings of the same programs in all languages, analysed in ONE run (-l with every language)
+    multi = ok[:12] if tier == "quick" else ok[:60]
+    mfiles, mnames = {}, {}
+    for r in K.RENDERERS:
+        for i, (name, defs) in enumerate(multi):
+            mfiles["m%04d%s" % (i, r.ext)] = render(r, name, defs)
+            mnames["m%04d%s" % (i, r.ext)] = (name, r)
+    jobs.append(dict(cmd="lang", lang=",".join(r.name for r in K.RENDERERS), files=mfiles, dir=os.path.join(root, "multi"), export=["gir", "modules"],
+                     flags=["--nomock"], timeout=900, _names={}, _r=None, _files=mfiles, _multi=mnames))
     res = C.lian_batch(jobs)
-    cases = []
+    cases, n_multi = [], 0
     for job, rr in zip(jobs, res):
         r = job["_r"]
         if rr["exit"] != "ok":
-            v.violation("lian_failed:%s:%s:%s" % (r.name, rr["exit"], (rr.get("traceback") or "").strip().splitlines()[-1][:60] if rr.get("traceback") else ""),
-                        {"lang": r.name, "exit": rr["exit"], "traceback": (rr.get("traceback") or "")[-800:]})
+            v.violation("lian_failed:%s:%s:%s" % (r.name if r else "multi", rr["exit"], (rr.get("traceback") or "").strip().splitlines()[-1][:60] if rr.get("traceback") else ""),
+                        {"lang": r.name if r else "multi", "exit": rr["exit"], "traceback": (rr.get("traceback") or "")[-800:]})
             continue
         gir = rr["exports"].get("gir") or []
         mods = {m.get("unit_id"): m for m in (rr["exports"].get("modules") or []) if m.get("unit_id") is not None}
         for uid, rows in G.units_of(gir):
             sym = str(mods.get(uid, {}).get("symbol_name"))
+            if job.get("_multi"):
+                fn = os.path.basename(str(mods.get(uid, {}).get("original_path") or ""))
+                if fn not in job["_multi"]:
+                    continue
+                name, r = job["_multi"][fn]
+                n_multi += 1
+                cases.append({"name": "%s@%s+multi" % (name, r.name), "lang": r.name, "rows": [G.machine_row(x) for x in rows], "temps": G.temps_of(rows),
+                              "expected": ref[name]["expected"], "start": r.start, "source": "# analysed in one workspace together with the renderings in the other languages\n"
+                              + job["_files"][fn], "check": "out", "flows": [], "param_sources": []})
+                continue
             name = job["_names"].get(sym)
             if name is None:
                 continue
             cases.append({"name": "%s@%s" % (name, r.name), "lang": r.name, "rows": [G.machine_row(x) for x in rows], "temps": G.temps_of(rows),
                           "expected": ref[name]["expected"], "start": r.start, "source": job["_files"][sym + r.ext], "check": "out", "flows": [], "param_sources": []})
+    # the GIR of a file must not depend on which other languages are analysed in the same run
+    single = {c["name"]: c for c in cases}
+    n_same = 0
+    for c in list(cases):
+        if not c["name"].endswith("+multi"):
+            continue
+        o = single.get(c["name"][:-6])
+        if o is None:
+            continue
+        a, b = shape(o["rows"]), shape(c["rows"])
+        if a == b:
+            n_same += 1
+            cases.remove(c)          # identical rows: the verdict of the single-language case stands for both
+        else:
+            k = next((i for i in range(min(len(a), len(b))) if a[i] != b[i]), min(len(a), len(b)))
+            v.violation("%s:gir_depends_on_other_languages_in_workspace" % c["lang"],
+                        {"case": c["name"], "clause": "gir_depends_on_other_languages_in_workspace", "expected": a[k:k + 2], "got": b[k:k + 2],
+                         "rows_alone": len(a), "rows_in_multi_language_workspace": len(b), "source": c["source"]})
+            cases.remove(c)
+    # every rendering handed to a frontend must come back as a unit with GIR (a frontend that silently emits nothing loses every element)
+    have = set(single)
+    for job, rr in zip(jobs, res):
+        if rr["exit"] != "ok":
+            continue
+        if job.get("_multi"):
+            want = [("%s@%s+multi" % (name, r.name), r.name, fn) for fn, (name, r) in job["_multi"].items()]
+        else:
+            want = [("%s@%s" % (name, job["_r"].name), job["_r"].name, sym + job["_r"].ext) for sym, name in job["_names"].items()]
+        for cname, lang, fn in want:
+            if cname not in have:
+                v.violation("%s:rendering_without_gir%s" % (lang, ":multi_language_workspace" if job.get("_multi") else ""),
+                            {"case": cname, "clause": "rendering_without_gir", "got": None, "expected": None, "source": job["_files"][fn]})
     tot = c01.run_tlc(cases, root, v)
     by_name = {c["name"]: c for c in cases}
     seen = {vd["case"] for vd in tot["verdicts"]}
@@ -96,7 +159,7 @@ def run(tier, seed):
     cov = {
         "programs": len(cases), "disagreements_checked": sum(len(c["expected"]) for c in cases),
         "samples": [{"program": c["name"], "source": c["source"][:500], "expected": c["expected"][:3]} for c in cases[:2]],
-        "core_programs": len(ok), "renderings_by_language_total_disagreeing": per_lang, "skipped_by_reference": skipped,
+        "core_programs": len(ok), "renderings_in_one_multi_language_workspace": n_multi, "of_them_with_gir_identical_to_the_single_language_run": n_same, "renderings_by_language_total_disagreeing": per_lang, "skipped_by_reference": skipped,
         "tlc_states": tot["states"], "disagreeing_renderings": n_bad, "known_findings_hit": {k: len(x) for k, x in v.hits.items()},
         "repo": C.repo_head(),
     }
